@@ -61,7 +61,7 @@ prop(
 prop(
     "C14",
     "exploration",
-    "cases = cepstra as C06 x beta in (0,0.5] x alpha x rates, order 3..40 (+ order 2 no-op, beta=0 identity); the measured log spectrum with beta must equal sum_{m>=1} c'_m cos(m w~) + const with c'_1=c_1, c'_m=(1+beta)c_m, the least-squares recovered cepstrum must agree, and the response energy must stay within 1 % when >= 99.99 % of it lies in 576 taps; with a constant spectrum and random V/UV switches the output stays that of one LTI filter; on a spectrum that moves every frame Vocoder(beta) on c_t equals Vocoder(0) on the postfiltered cepstrum computed from the definition (<= 1e-5 of the peak); non-trivial = energy law checked and the postfilter changed the response by > 1e-3; distinct by (order, alpha, beta bucket, rate)",
+    "cases = cepstra as C06 x beta in (0,0.5] x alpha x rates, order 3..40 (+ order 2 no-op, beta=0 identity); the measured log spectrum with beta must equal sum_{m>=1} c'_m cos(m w~) + const with c'_1=c_1, c'_m=(1+beta)c_m, the least-squares recovered cepstrum must agree, and the response energy must stay within 1 % when >= 99.99 % of it lies in 576 taps; with a constant spectrum and random V/UV switches the output stays that of one LTI filter; on a spectrum that moves every frame Vocoder(beta) on c_t equals Vocoder(0) on the postfiltered cepstrum computed from the definition (<= 1e-5 of the peak); end to end, the engine renders with the beta that was set (one case in five sets it on the Condition before load_model); non-trivial = energy law checked and the postfilter changed the response by > 1e-3; distinct by (order, alpha, beta bucket, rate)",
     [st("checked")],
     [st("checked"), st("release")],
     VOC_ASSUME,
@@ -79,7 +79,7 @@ prop(
 prop(
     "C05",
     "exploration",
-    "cases = random streams (1..60 states, durations 1..8, vector length 1..4, variances in [0.05,3], 6 voicing-pattern classes incl. all-unvoiced and 1-2 frame islands at the edges, 10 window sets incl. width-5, zero-centre and zero-ended rows, widest window not last; one case in eight with the static window zero-padded to width 3 or 5) through the public MlpgAdjust with gv=None; every voiced island x vector index is checked against the dense normal equations of the definition (relative residual <= 1e-10 and agreement with Gaussian elimination <= 1e-8); non-trivial = island of >= 3 frames with >= 1 active dynamic row; distinct by (window set, pattern class, vector length, island-length profile)",
+    "cases = random streams (1..60 states, durations 1..8, vector length 1..4, variances in [0.05,3], 6 voicing-pattern classes incl. all-unvoiced and 1-2 frame islands at the edges, one MSD case in nine with a third of the voicing weights exactly equal to the threshold (unvoiced: 'exceeds' is strict), 10 window sets incl. width-5, zero-centre and zero-ended rows, widest window not last; one case in eight with the static window zero-padded to width 3 or 5) through the public MlpgAdjust with gv=None; every voiced island x vector index is checked against the dense normal equations of the definition (relative residual <= 1e-10 and agreement with Gaussian elimination <= 1e-8); non-trivial = island of >= 3 frames with >= 1 active dynamic row; distinct by (window set, pattern class, vector length, island-length profile)",
     [st("checked")],
     [st("checked"), st("release")],
 )
@@ -140,7 +140,7 @@ prop(
 prop(
     "C15",
     "exploration",
-    "h in [-24,24] (integers, fractions, +-0, corners) x random conditions (GV on) x utterances, on the bundled voice, perturbed copies and generated voices; hooked trajectories at h vs 0: same durations and V/UV mask, spectrum and low-pass bit-equal, log-F0 shifted by h*ln2/12 within 1e-9 at every voiced frame unless a voiced state's mean reaches the 20 Hz / 20 kHz limit (then only the isolation clauses); a workload that sets the log-F0 GV weight so that the variance target lies within 1e-8..1e-3 of the contour's own variance measures the listed finding there (step-size control decided by rounding, bound 1e-4) and reports anything larger; h = 0 bit-equal incl. the waveform; plus the state-level law through the public StreamParameter::apply_additional_half_tone (mean' = limit(mean + h ln2/12, ln 20, ln 20000), other components untouched) on bundled-voice and synthetic states near both limits; non-trivial = h != 0 with >= 1 voiced frame under the shift law",
+    "h in [-24,24] (integers, fractions, +-0, corners) x random conditions (GV on) x utterances, on the bundled voice, perturbed copies and generated voices (one case in five sets h on the Condition before load_model); hooked trajectories at h vs 0: same durations and V/UV mask, spectrum and low-pass bit-equal, log-F0 shifted by h*ln2/12 within 1e-9 at every voiced frame unless a voiced state's mean reaches the 20 Hz / 20 kHz limit (then only the isolation clauses); a workload that sets the log-F0 GV weight so that the variance target lies within 1e-8..1e-3 of the contour's own variance measures the listed finding there (step-size control decided by rounding, bound 1e-4) and reports anything larger; h = 0 bit-equal incl. the waveform; plus the state-level law through the public StreamParameter::apply_additional_half_tone (mean' = limit(mean + h ln2/12, ln 20, ln 20000), other components untouched) on bundled-voice and synthetic states near both limits; non-trivial = h != 0 with >= 1 voiced frame under the shift law",
     [st("checked")],
     [st("checked"), st("release")],
     ["utterances whose voiced log-F0 trajectory is numerically constant while GV is on are not judged by the shift law (GV only rescales rounding noise there)"],
@@ -148,7 +148,7 @@ prop(
 prop(
     "C16",
     "exploration",
-    "v in [-60,60] dB (0, +-6.0206, corners, random) x random conditions x utterances on bundled and generated voices (both filter families, 2 and 3 streams): every sample at v dB equals 10^(v/20) times the 0 dB sample within 32 eps, equal length, no other setting changes, get_volume returns v within 1e-12; for v != 0 the same law on the waveform pulled from generator() all at once, frame by frame, or a few frames and then the rest; non-trivial = v != 0 and a non-silent waveform",
+    "v in [-60,60] dB (0, +-6.0206, corners, random) x random conditions x utterances on bundled and generated voices (both filter families, 2 and 3 streams): every sample at v dB equals 10^(v/20) times the 0 dB sample within 32 eps, equal length, no other setting changes, get_volume returns v within 1e-12; for v != 0 the same law on the waveform pulled from generator() all at once, frame by frame, or a few frames and then the rest; every second step buffer is 3 samples longer than the frame and holds live values there, which must come out the same as from a generator at 0 dB stepped alongside; non-trivial = v != 0 and a non-silent waveform",
     [st("checked")],
     [st("checked"), st("release")],
     ["samples that are non-finite at 0 dB (outside the stable range, see C01) are not compared"],
